@@ -180,3 +180,50 @@ def judge(c):
     if f is None:
         return J(corr="skip", verdict="unjudged", what="no judge for kind " + str(c.get("kind")), trivial=True)
     return f(c)
+
+
+def judge_validate(c):
+    """C13: acceptance rule computed here from the declared signature (independent of the model)."""
+    impl, model = c["impl"], c["model"]
+    g = c["graph"]
+    sup = {s["name"]: s["shape"] for s in (c["p"].get("supplied") or [])}
+    inits = {i["name"] for i in (g.get("inits") or [])}
+    reject, why = False, ""
+    expected_shapes = {}
+    for v in g.get("inputs") or []:
+        if v.get("noshape") or not v.get("dims"):
+            continue
+        expected_shapes[v["name"]] = [d if isinstance(d, int) and d != 0 else None for d in v["dims"]]
+        if v["name"] in inits:
+            continue
+        if v["name"] not in sup:
+            reject, why = True, "missing " + v["name"]
+            continue
+        sh = sup[v["name"]]
+        if len(sh) != len(v["dims"]):
+            reject, why = True, "rank"
+            continue
+        for d, n in zip(v["dims"], sh):
+            if isinstance(d, int) and d != 0 and d != n:
+                reject, why = True, "dim"
+    corr = "agree" if impl["status"] == model["status"] else "disagree"
+    verdict, what = "holds", ""
+    ex = impl.get("extra") if isinstance(impl.get("extra"), dict) else {}
+    if impl["status"] == "panic":
+        verdict, what = "violates", "panic: " + impl.get("msg", "")[:100]
+    elif reject and impl["status"] != "error":
+        verdict, what = "violates", f"Run accepts an input set that violates the signature ({why})"
+    elif not reject and impl["status"] != "ok":
+        verdict, what = "violates", f"Run rejects an input set that satisfies the signature: {impl.get('msg','')[:100]}"
+    elif impl.get("mut"):
+        verdict, what = "violates", "a supplied tensor was modified"
+    elif reject and ex.get("n_outs", 0) != 0:
+        verdict, what = "violates", "outputs produced together with the error"
+    elif ex and ex.get("shapes") != expected_shapes:
+        verdict, what = "violates", f"introspection reports {ex.get('shapes')} but the declaration is {expected_shapes}"
+    key = ("validate", c.get("stream"), len(g.get("inputs") or []), why, impl["status"],
+           tuple(len(v.get("dims") or []) for v in g.get("inputs") or []))
+    return J(corr=corr, verdict=verdict, tag="validate" if verdict == "violates" else None, what=what, key=key)
+
+
+JUDGES["validate"] = judge_validate
